@@ -41,6 +41,31 @@ def make_cases(rng, tier, n):
             stats["probe_" + state] = stats.get("probe_" + state, 0) + 1
             cases.append(c)
             continue
+        if not pipe and i % 12 == 7:
+            # the index file is missing (untracked in a fresh clone, deleted by hand): read-only commands fail and create nothing
+            c["ops"] = [("commit", rng.choice("lc"), [])]
+            # (not predicted by the model, whose index and stage files are one object: evaluated by the oracle only)
+            c["tail_ops"] = [("rmindex",)] + [rng.choice([("status", []), ("graph", []), ("status", [names[0]]), ("graph", [names[0]])]) for _ in range(3)]
+            c["hist_info"] = dict(commits=1)
+            stats["missing_index"] = stats.get("missing_index", 0) + 1
+            cases.append(c)
+            continue
+        if pipe and i % 10 == 6:
+            # a stage whose working directory does not exist and lies INSIDE its own directory output; its command touches nothing:
+            # whatever `dud run` answers, dud itself creates nothing below the output
+            k_ = rng.randrange(len(c["stages"]))
+            sp_, st_ = c["stages"][k_]
+            outp = st_["out"][0][0]
+            st_["cmd"] = b"vprobe S%d" % k_
+            st_["wd"] = outp + rng.choice([b"", b"/tmp", b"/gen/tmp"]) if "d" in st_["out"][0][1] else b"not/there"
+            st_.pop("in", None)
+            c["edges"] = [(a_, b_) for (a_, b_) in c["edges"] if b_ != k_]
+            c["ops"] = [("run", False, [sp_]), ("status", []), ("run", False, [])]
+            c["tail_ops"] = []
+            c["hist_info"] = dict(commits=1)
+            stats["wd_inside_output"] = stats.get("wd_inside_output", 0) + 1
+            cases.append(c)
+            continue
         if not pipe and rng.random() < 0.15:
             # a fresh clone: nothing committed yet, the cache directory does not exist; read-only commands must not create it
             c["cache"] = rng.choice(["rel", "abs"])
@@ -152,7 +177,7 @@ def oracle(run):
         snap = st["snap"]
         if k == "setcmd":
             cmds[op[1]] = op[2]
-        if k == "run" and st["rc"] == 0:
+        if k == "run":
             # a stage whose command does not touch anything: whatever changed below its outputs was done by dud itself
             for sp, stg in case["stages"]:
                 if cmds.get(sp, b"").startswith(b"vprobe"):
